@@ -26,12 +26,27 @@ def suite_hist(ctx, focus):
         if i < len(corpus):
             ops, meta = corpus[i]
         else:
-            ops, meta = hist.gen_history(rng, rng.choice(['residue', 'unlock', 'spr', 'timing']), rng.randrange(3, ctx.n(10, 40)), hcfg)
+            ops, meta = hist.gen_history(rng, 'residue' if focus == 'C06' else rng.choice(['residue', 'unlock', 'spr', 'timing']), rng.randrange(3, ctx.n(10, 40)), hcfg)
         out, tr, client, conn = hist.run_history(hcfg, ops)
         line = hcfg.line(ops)
         lines.append(line)
         impl.append(out)
         s.distinct.add(line)
+        if focus == 'C06':
+            # every negative response code ends the request with that code, whatever the history left behind (stray frames in the receive queue, failed calls,
+            # blocks entered and left); read off the implementation for the calls whose scripted reply is a negative response arriving in time
+            for st, m in zip(tr.steps, meta):
+                if st['op'][0] != 'call' or m.get('kind') not in ('neg', 'pend_neg') or st['before']['timing'] != (None, None):
+                    continue
+                if not any(o[0] == 'wait' for o in st['log']):
+                    continue            # refused, or inside a suppress block that does not wait
+                code = st['op'][2][-1][1][2]
+                s.evaluations += 1
+                s.count('negative reply after: ' + ('stray frames' if any(x['op'][0] == 'stray' for x in tr.steps[:tr.steps.index(st)]) else 'no stray frame'))
+                if st['verdict'] != 'negative:%d' % code:
+                    s.fail({'site': 'history step', 'input': line, 'op': hist.op_str(st['op']), 'observed': '%s %s' % (st['how'], st['verdict']),
+                            'required': 'negative:%d (the reply to this request is 7F .. %02X)' % (code, code)})
+            continue
         if focus == 'C04':
             for st in tr.steps:
                 if st['op'][0] not in ('call', 'unlock'):
